@@ -37,6 +37,8 @@ type C03Case struct {
 
 type C03Again struct {
 	Data []byte `json:"data"`
+	// Empty: an empty input is handed to the same method in between
+	Empty bool `json:"empty,omitempty"`
 }
 
 type C03Scale struct {
@@ -332,15 +334,24 @@ func c03SecondUse(cd *codec, c *C03Case, info *CaseInfo) string {
 			switch c.Entry {
 			case "parse":
 				first = p.Parse(data)
+				if c.Again.Empty {
+					_ = p.Parse(nil)
+				}
 				_ = p.Parse(again)
 			case "parsestring":
 				first = p.ParseString(string(data))
+				if c.Again.Empty {
+					_ = p.ParseString("")
+				}
 				_ = p.ParseString(string(again))
 			default:
 				for _, ch := range chunks {
 					if _, first = p.Write(ch); first != nil {
 						break
 					}
+				}
+				if c.Again.Empty {
+					_, _ = p.Write(nil)
 				}
 				_, _ = p.Write(again)
 			}
@@ -407,6 +418,37 @@ var c03Hostile = map[string][]string{
 		`"\u12"`, `"\ud800"`, `"\ud800\u`, `"\ud800\u12`, `"\ud800\udc`, `"\`, `"\u`, `"\uZZZZ"`, `"\x"`, "\"\n\"", "\"\\n\xc3\xa9\"", "\"\\n\xc3", `[`, `{`, `{"a"`, `{"a":`, `[1,`, `nul`, `tru`, `fals`, `-`, `+`, `.`, `1e`, `--1`, `1.2.3`,
 		`[[[[[[[[[[[[[[[[[[[[[[[[[[[[[[[[[[[[[[[[`, `]`, `}`, `,`, `:`, `{"a":1,}`, `[1 2]`, "\xff", "\xef\xbb\xbf[]", `"` + "\x00" + `"`, `99999999999999999999999999`, `-9223372036854775809`, `1e999`,
 	},
+}
+
+// every class of IEEE 754 bit pattern (sign x {zero, smallest, middle, largest
+// finite, all-ones exponent} x {zero, one, top-bit, all-ones mantissa}) in every
+// float width of the binary formats, bare and as array element: conversion code
+// meets zeros of both signs, subnormals, infinities and NaNs
+func init() {
+	pattern := func(expBits, manBits uint, sign, ec, mc int) uint64 {
+		expMax := uint64(1)<<expBits - 1
+		exp := []uint64{0, 1, expMax / 2, expMax - 1, expMax}[ec]
+		manMax := uint64(1)<<manBits - 1
+		man := []uint64{0, 1, uint64(1) << (manBits - 1), manMax}[mc]
+		return uint64(sign)<<(expBits+manBits) | exp<<manBits | man
+	}
+	be := func(v uint64, n int) string {
+		b := make([]byte, n)
+		for i := n - 1; i >= 0; i-- {
+			b[i] = byte(v)
+			v >>= 8
+		}
+		return string(b)
+	}
+	for sign := 0; sign < 2; sign++ {
+		for ec := 0; ec < 5; ec++ {
+			for mc := 0; mc < 4; mc++ {
+				h, f, d := be(pattern(5, 10, sign, ec, mc), 2), be(pattern(8, 23, sign, ec, mc), 4), be(pattern(11, 52, sign, ec, mc), 8)
+				c03Hostile["cborl"] = append(c03Hostile["cborl"], "\xf9"+h, "\x81\xf9"+h, "\xfa"+f, "\x81\xfa"+f, "\xfb"+d, "\x9f\xfb"+d+"\xff")
+				c03Hostile["ubjson"] = append(c03Hostile["ubjson"], "d"+f, "[d"+f+"]", "D"+d, "[$D#i\x01"+d, "[$d#i\x02"+f+f)
+			}
+		}
+	}
 }
 
 // hostileHeaders builds the matrix of container/string headers whose announced
@@ -527,7 +569,7 @@ func drawC03(t *rapid.T) any {
 		c.BufSize = rapid.SampledFrom([]int{1, 2, 3, 7, 16, 64, 4096}).Draw(t, "bufsize")
 	}
 	if c.Entry != "parsereader" && rapid.IntRange(0, 2).Draw(t, "again") > 0 {
-		c.Again = &C03Again{}
+		c.Again = &C03Again{Empty: rapid.Bool().Draw(t, "again_empty")}
 		switch rapid.IntRange(0, 3).Draw(t, "againw") {
 		case 0:
 			c.Again.Data = append([]byte{}, c.Data...)
@@ -547,7 +589,7 @@ type gen2Span struct{}
 func init() {
 	register(&Property{
 		ID:    "C03",
-		Rule:  "inputs: random bytes; hostile constants from the statement (CBOR tag/half float/minors 28-30/lengths 2^63..2^64-1, UBJSON bad length markers/unterminated containers/$N, JSON broken escapes and lone surrogates) alone, with random tails or spliced into valid documents; every proper prefix of valid own/foreign documents; 1-2 byte-level mutations of valid documents (bit flip, insert, delete, overwrite, hostile length fields); long concatenations for the linear bound x chunkings x entry points {Parse, ParseString, ParseReader, Write, NewBytesDecoder+Next, NewDecoder+Next with buffer sizes 1..4096}; 2 of 3 cases use the SAME parser (Parse/ParseString/Write) or decoder (3 more Next calls) once more after the first input ended, whatever its outcome, and that second use must return without panic or hang; oracle = no panic, no hang (watchdog), Next loop <= len+2 calls, TotalAlloc <= 64KiB+buf+64*len, ParseString leaves its argument intact, and inputs the reference decoder classifies as 'needs more input' must end in an error other than io.EOF at every end-aware entry point; deterministic part: every prefix (incl. empty and full) of a fixed set of valid documents and every hostile constant x all 6 entry points; non-trivial = at least one event delivered or input >= 2 bytes; distinct by case hash; scaling probes (deterministic): 21 single-construct document families (runs of backslashes, escapes, digits, whitespace, nesting, members, no-ops, long strings/keys/byte strings ...) at 30 KB and 120 KB fed byte-wise through Write, through ParseReader in 3-byte reads and through a pull decoder with a 3-byte buffer; a violation needs more than 1 s of process CPU time for the larger input AND more than 8x the CPU time of the smaller one",
+		Rule:  "inputs: random bytes; hostile constants from the statement (every class of IEEE bit pattern in every float width of the binary formats, CBOR tag/half float/minors 28-30/lengths 2^63..2^64-1, UBJSON bad length markers/unterminated containers/$N, JSON broken escapes and lone surrogates) alone, with random tails or spliced into valid documents; every proper prefix of valid own/foreign documents; 1-2 byte-level mutations of valid documents (bit flip, insert, delete, overwrite, hostile length fields); long concatenations for the linear bound x chunkings x entry points {Parse, ParseString, ParseReader, Write, NewBytesDecoder+Next, NewDecoder+Next with buffer sizes 1..4096}; 2 of 3 cases use the SAME parser (Parse/ParseString/Write) or decoder (3 more Next calls) once more after the first input ended, whatever its outcome (half of them with an empty input in between), and that second use must return without panic or hang; oracle = no panic, no hang (watchdog), Next loop <= len+2 calls, TotalAlloc <= 64KiB+buf+64*len, ParseString leaves its argument intact, and inputs the reference decoder classifies as 'needs more input' must end in an error other than io.EOF at every end-aware entry point; deterministic part: every prefix (incl. empty and full) of a fixed set of valid documents and every hostile constant x all 6 entry points; non-trivial = at least one event delivered or input >= 2 bytes; distinct by case hash; scaling probes (deterministic): 21 single-construct document families (runs of backslashes, escapes, digits, whitespace, nesting, members, no-ops, long strings/keys/byte strings ...) at 30 KB and 120 KB fed byte-wise through Write, through ParseReader in 3-byte reads and through a pull decoder with a 3-byte buffer; a violation needs more than 1 s of process CPU time for the larger input AND more than 8x the CPU time of the smaller one",
 		New:   func() any { return &C03Case{} },
 		Draw:  drawC03,
 		Check: checkC03,
